@@ -5,6 +5,7 @@ import (
 	"fmt"
 	"os"
 	"runtime/pprof"
+	"syscall"
 
 	_ "verifharness/checks"
 	"verifharness/mc"
@@ -17,6 +18,14 @@ func main() {
 		os.Exit(2)
 	}
 	world.Quiet()
+	// The library's logger captured os.Stdout at package init; point fd 1 at /dev/null and keep
+	// the real stdout for the check's own verdict lines.
+	if nfd, err := syscall.Dup(1); err == nil {
+		if dn, err := os.OpenFile(os.DevNull, os.O_WRONLY, 0); err == nil {
+			syscall.Dup2(int(dn.Fd()), 1)
+			os.Stdout = os.NewFile(uintptr(nfd), "/dev/stdout")
+		}
+	}
 	if pf := os.Getenv("VERIF_CPUPROFILE"); pf != "" {
 		f, _ := os.Create(pf)
 		pprof.StartCPUProfile(f)
